@@ -119,6 +119,18 @@ def describe(obj, gtype):
     for u, v in raw[:6]:
         if not obj.has_edge(u, v):
             raise Mismatch("has_edge{} is false for a listed edge".format((u, v)))
+    # small graphs: has_edge on every pair says what the listing says (families such as iso and subgraph read the graph
+    # through has_edge, others through the listing or the neighbourhoods)
+    listed = set(raw)
+    if gtype == 'bipartite':
+        pairs = [(u, v) for u in range(1, min(L, 8) + 1) for v in range(1, min(Rr, 8) + 1)]
+        member = lambda u, v: (u, v) in listed       # noqa
+    else:
+        pairs = [(u, v) for u in range(1, min(n, 10) + 1) for v in range(1, min(n, 10) + 1) if u != v]
+        member = (lambda u, v: (u, v) in listed or (v, u) in listed) if gtype == 'simple' else (lambda u, v: (u, v) in listed)    # noqa
+    for u, v in pairs:
+        if bool(obj.has_edge(u, v)) != member(u, v):
+            raise Mismatch("has_edge{} answers {} but edges() {} that pair".format((u, v), bool(obj.has_edge(u, v)), 'lists' if member(u, v) else 'does not list'))
     if gtype == 'dag' and not obj.is_dag():
         raise Mismatch("is_dag() is false for a 'dag' specification")
     return d
